@@ -26,7 +26,7 @@ ScanNode(n, acc) ==
          [] n.t = "case" -> ScanBodies(n.whens, ScanSeq(Fld(n, "pre", <<>>), acc))
          [] n.t = "for" -> LET a1 == ScanSeq(n.body, acc) IN IF a1.found THEN a1 ELSE ScanSeq(Fld(n, "else", <<>>), a1)
          [] n.t = "capture" -> ScanSeq(n.body, acc)
-         [] OTHER -> acc
+         [] OTHER -> [found |-> FALSE, n |-> acc.n + Fld(n, "padnl", 0)]
 ScanSeq(ns, acc) ==
   LET F[k \in 0..Len(ns)] == IF k = 0 THEN acc ELSE ScanNode(ns[k], F[k - 1]) IN F[Len(ns)]
 
